@@ -1,3 +1,5 @@
+import PyrollModel.Gen.C01Hooks
+
 /-
   HookReg — model of hook registration and resolution order of pyroll.core (C01).
 
@@ -10,6 +12,15 @@
     functions, last_functions                                                                        → `walkAll`
   * `Hook.add_function` / `Hook.remove_function`: the six per-owner stores                          → `HookObj.push/erase`
   * `_HookHostMeta.__setattr__` + `HookHost.extension_class`: a hook object put on an existing class → `Op.extension`
+
+  SOURCE TIE (T): the parts of these functions that are pure data are not written down here but CONSUMED from
+  `PyrollModel/Gen/C01Hooks.lean`, which `driver/translate/hooks_skeleton.py` regenerates from `pyroll/core/hooks.py` on
+  every run of `./check C01`:
+    `Gen.C01.Hooks.functionsGenOrder` → `implTiers` (order of the six walks of `functions_gen`),
+    `Gen.C01.Hooks.yieldReversed`     → `orient` (`reversed(...)` in `_yield_functions_from`),
+    `Gen.C01.Hooks.addStores`         → `addStore?` / `HookObj.push` (which store `add_function` appends to),
+    `Gen.C01.Hooks.removeStores`      → `removeHits` / `HookObj.erase` (which stores `remove_function` looks into).
+  The specification side (`tiers6`, `specRegs`, `specOrder`) is hand-written and does not depend on the generated module.
 
   One hook name is modelled (hooks of different names do not interact).  Classes are natural numbers, the
   `__mro__` of every class is DATA handed over at class creation (restricted to the classes of the case;
@@ -64,8 +75,36 @@ def HookObj.store (h : HookObj) : Bool → Tier → List HF
   | false, .normal => h.fns
   | false, .last => h.lastFns
 
-/-- `add_function`: append to the store selected by the flags -/
-def HookObj.push (h : HookObj) (w : Bool) (t : Tier) (f : HF) : HookObj :=
+/-- the six stores by the name of the python attribute (the naming of the model's six fields) -/
+def storeKey : String → Option (Bool × Tier)
+  | "_first_wrappers" => some (true, .first)
+  | "_wrappers" => some (true, .normal)
+  | "_last_wrappers" => some (true, .last)
+  | "_first_functions" => some (false, .first)
+  | "_functions" => some (false, .normal)
+  | "_last_functions" => some (false, .last)
+  | _ => none
+
+/-- the keyword flags `(tryfirst, trylast)` a registration of tier `t` is made with -/
+def tierFlags : Tier → Bool × Bool
+  | .first => (true, false)
+  | .normal => (false, false)
+  | .last => (false, true)
+
+/-- the `if wrapper: … if tryfirst: … elif trylast: … else: …` selection of `add_function` as a decision list
+    (wrapper flag, tested keyword or "" for `else`, store): the first entry that applies -/
+def selectStore : List (Bool × String × String) → Bool → Bool → Bool → Option String
+  | [], _, _, _ => none
+  | (w', c, s) :: rest, w, tf, tl =>
+    if w' == w && (c == "" || (c == "tryfirst" && tf) || (c == "trylast" && tl)) then some s
+    else selectStore rest w tf tl
+
+/-- the store `add_function` appends to for the flags of a registration, read from the GENERATED table -/
+def addStore? (w : Bool) (t : Tier) : Option (Bool × Tier) :=
+  (selectStore Gen.C01.Hooks.addStores w (tierFlags t).1 (tierFlags t).2).bind storeKey
+
+/-- append to one of the six stores -/
+def HookObj.pushAt (h : HookObj) (w : Bool) (t : Tier) (f : HF) : HookObj :=
   match w, t with
   | true, .first => { h with firstWr := h.firstWr ++ [f] }
   | true, .normal => { h with wr := h.wr ++ [f] }
@@ -74,13 +113,28 @@ def HookObj.push (h : HookObj) (w : Bool) (t : Tier) (f : HF) : HookObj :=
   | false, .normal => { h with fns := h.fns ++ [f] }
   | false, .last => { h with lastFns := h.lastFns ++ [f] }
 
+/-- `add_function`: append to the store the generated selection table names for the flags (no store named: the new
+    `HookFunction` is stored nowhere) -/
+def HookObj.push (h : HookObj) (w : Bool) (t : Tier) (f : HF) : HookObj :=
+  match addStore? w t with
+  | some k => h.pushAt k.1 k.2 f
+  | none => h
+
 /-- `list.remove(x)`: the first element equal (= identical) to the hook function, nothing if absent -/
 def eraseId (l : List HF) (id : Nat) : List HF := l.eraseP (fun f => f.id == id)
 
-/-- `remove_function`: tried on every one of the six stores -/
+/-- is this store among the ones `remove_function` looks into (GENERATED list `Gen.C01.Hooks.removeStores`)? -/
+def removeHits (w : Bool) (t : Tier) : Bool :=
+  Gen.C01.Hooks.removeStores.any fun s => storeKey s == some (w, t)
+
+/-- `remove_function`: `remove` is tried on every store of the generated list (an absent function is passed over) -/
 def HookObj.erase (h : HookObj) (id : Nat) : HookObj :=
-  { firstFns := eraseId h.firstFns id, fns := eraseId h.fns id, lastFns := eraseId h.lastFns id,
-    firstWr := eraseId h.firstWr id, wr := eraseId h.wr id, lastWr := eraseId h.lastWr id }
+  { firstFns := if removeHits false .first then eraseId h.firstFns id else h.firstFns,
+    fns := if removeHits false .normal then eraseId h.fns id else h.fns,
+    lastFns := if removeHits false .last then eraseId h.lastFns id else h.lastFns,
+    firstWr := if removeHits true .first then eraseId h.firstWr id else h.firstWr,
+    wr := if removeHits true .normal then eraseId h.wr id else h.wr,
+    lastWr := if removeHits true .last then eraseId h.lastWr id else h.lastWr }
 
 structure State where
   /-- `C.__mro__` (restricted to the classes of the case); `[]` = class not defined -/
@@ -108,16 +162,24 @@ def storeOf (st : State) (s : Cls) (w : Bool) (t : Tier) : List HF :=
   | some h => h.store w t
   | none => []
 
-/-- `_yield_functions_from(attr)` over the given `__mro__` -/
+/-- `yield from reversed(funcs)` resp. `yield from funcs` -/
+def orient (rev : Bool) (l : List HF) : List HF := if rev then l.reverse else l
+
+/-- `_yield_functions_from(attr)` over the given `__mro__`; whether the store is yielded reversed is read from the
+    GENERATED flag -/
 def walk (w : Bool) (t : Tier) : State → List Cls → State × List HF
   | st, [] => (st, [])
   | st, s :: rest =>
     let st1 := touch st s
     let r := walk w t st1 rest
-    (r.1, (storeOf st1 s w t).reverse ++ r.2)
+    (r.1, orient Gen.C01.Hooks.yieldReversed (storeOf st1 s w t) ++ r.2)
 
+/-- the DOCUMENTED order of the six kinds of stores (specification side, hand-written) -/
 def tiers6 : List (Bool × Tier) :=
   [(true, .first), (true, .normal), (true, .last), (false, .first), (false, .normal), (false, .last)]
+
+/-- the order in which `functions_gen` walks the stores: the GENERATED list of store names (implementation side) -/
+def implTiers : List (Bool × Tier) := Gen.C01.Hooks.functionsGenOrder.filterMap storeKey
 
 /-- `functions_gen`: one walk per store kind -/
 def walkAll : State → List Cls → List (Bool × Tier) → State × List HF
@@ -133,12 +195,12 @@ def visible (st : State) (c : Cls) : Bool := (lookup st c).isSome
 def functionsOf (st : State) (c : Cls) : State × Option (List HF) :=
   let st1 := touch st c
   if visible st1 c then
-    let r := walkAll st1 (st1.mro c) tiers6
+    let r := walkAll st1 (st1.mro c) implTiers
     (r.1, some r.2)
   else (st1, none)
 
 /-- the resolution order for instances of class `c` in state `st` -/
-def implOrder (st : State) (c : Cls) : List HF := (walkAll st (st.mro c) tiers6).2
+def implOrder (st : State) (c : Cls) : List HF := (walkAll st (st.mro c) implTiers).2
 
 /-- a real `__mro__`: starts with the new class, lists every class once, every listed base is defined and its own
     `__mro__` is contained (C3 linearisation guarantees this; the harness asserts that real classes pass) -/
